@@ -552,10 +552,14 @@ def rule_backreference_keys(ctx, R, prod):
                 for kir in tabs[w][1].REFERENCE_FIELDS or [None]:
                     required.append((wrt, kir, key))
         seen = set()
+        if n.startswith("segment"):
+            link_layout_cells(ctx, R, repo, c, f, n)
         for (rrt, kir, loc) in required:
             if (rrt, kir, loc) in seen:
                 continue
             seen.add((rrt, kir, loc))
+            if n.startswith("segment") and rrt == "L":
+                continue        # decided per layout by link_layout_cells
             ctx.instance(R)
             ref = Abs(None, label="ref", record_type=rrt, name="r")
             # worst case: `ref` sits in every reference field of `me` at once
@@ -596,6 +600,59 @@ def rule_backreference_keys(ctx, R, prod):
                     "would never be re-pointed" % (
                         "\\n" if rrt == "\n" else rrt, n, loc, kir, got))
     ctx.exhaustive[R] = True
+
+
+def link_layout_cells(ctx, R, repo, c, f, n):
+    """Links in the dovetail lists of a segment, per layout.  A link is
+    filed under the end of the segment each of its sides attaches to (from:
+    + -> R, - -> L; to: + -> L, - -> R; decided against the code by C11), so
+    for every layout -- which sides name this segment, with which
+    orientations -- the keys returned over the calls made for those sides
+    (the removal and substitution loops call once per reference field) must
+    together cover every list that holds the link.  A per-side answer is as
+    good as the full answer; an answer that forgets a list is not."""
+    SE = repo.cls("SegmentEnd")
+    Lk = repo.cls("line.edge.Link")
+    for sides, fo, to in itertools.product(
+            (("from_segment",), ("to_segment",),
+             ("from_segment", "to_segment")), "+-", "+-"):
+        ctx.instance(R)
+        me = Abs(c, label="me", name="m")
+        other = Abs(c, label="other", name="o")
+        fs = me if "from_segment" in sides else other
+        ts = me if "to_segment" in sides else other
+        fe = "R" if fo == "+" else "L"
+        te = "L" if to == "+" else "R"
+        ref = Abs(Lk, label="ref", record_type="L", name="r",
+                  from_segment=fs, to_segment=ts, from_orient=fo,
+                  to_orient=to, from_name=fs.attrs["name"],
+                  to_name=ts.attrs["name"],
+                  from_end=Abs(SE, label="from_end", segment=fs, end_type=fe,
+                               name=fs.attrs["name"]),
+                  to_end=Abs(SE, label="to_end", segment=ts, end_type=te,
+                             name=ts.attrs["name"]))
+        filed = set()
+        if fs is me:
+            filed.add("dovetails_" + fe)
+        if ts is me:
+            filed.add("dovetails_" + te)
+        got, err = set(), None
+        for kir in sides:
+            out = eval_function(repo, f, [me, ref, kir], hooks=LineHooks(repo))
+            if out[0] == "raise" or out[1] is None:
+                err = out[0:2]
+                break
+            got |= set(out[1])
+        ok = err is None and filed <= got
+        ctx.oblige(ok)
+        if not ok:
+            ctx.violation(
+                R, f.short, "class=%s,ref=L,sides=%s,orient=%s%s" % (
+                    n, "+".join(sd.split("_")[0] for sd in sides), fo, to),
+                "the link is filed under %s of the segment, but the calls "
+                "for its side(s) return %s: a list would never be "
+                "re-pointed" % (sorted(filed), sorted(got) if err is None
+                                else err))
 
 
 def relevant_keys(prod, what):
@@ -751,14 +808,25 @@ def rule_removal_helpers(ctx, R):
                 # path is a dependant of its links (disconnected first)
                 continue
         ctx.instance(R)
-        oh = OvHooks(repo)
+
+        class ContentEq(OvHooks):
+            # Line.__eq__ compares content (decided by C19.equality): two
+            # distinct links with the same fields are equal, never identical
+            def eq(self, ev, a, b):
+                if isinstance(a, Abs) and isinstance(b, Abs) and \
+                        "content" in a.attrs and "content" in b.attrs:
+                    return a.attrs["content"] == b.attrs["content"]
+                return super().eq(ev, a, b)
+        oh = ContentEq(repo)
 
         def mk(d, label):
             return Abs(L, label=label, from_segment=segs[d[0]],
                        from_orient=d[1], to_segment=segs[d[2]],
-                       to_orient=d[3], overlap=oh.ov(*d[4]))
+                       to_orient=d[3], overlap=oh.ov(*d[4]), content=d)
         old = mk(d_old, "old")
-        other = mk(descr["a+a+X"], "other")
+        # the other entries of the list are a distinct line with the very
+        # same content (a parallel edge, a duplicate line)
+        other = mk(d_old, "other")
         new = mk(d_new, "new") if d_new is not None else None
 
         def wrap(x):
@@ -769,6 +837,11 @@ def rule_removal_helpers(ctx, R):
         lst = [wrap(other), wrap(old), wrap(other), wrap(old)]
         me = Abs(E, label="me")
         out = eval_function(repo, f_ul, [me, lst, old, new], hooks=oh)
+        if new is None and out[0] == "return" and \
+                any(x is old for x in lst):
+            # the removal loops call once per reference field of the removed
+            # line, i.e. once per entry of a line listed twice
+            out = eval_function(repo, f_ul, [me, lst, old, new], hooks=oh)
 
         def show(x):
             if isinstance(x, Abs) and x.cls is OL:
